@@ -229,6 +229,48 @@ func rtImgCfg(x *rtCtx, fs []string) *document.ImageConfig {
 	return cfg
 }
 
+// rtNestedTable: a table of rows x cols nested `depth` levels below a 1x1 body table. The target
+// of the features is the NESTED table, so every table feature (cell content, pictures, merges,
+// borders, rows / columns ...) is exercised below the body level as well.
+func rtNestedTable(depth, rows, cols int) rtCtor {
+	return func(x *rtCtx, fs []string) (*rtTarget, string) {
+		t, err := x.doc.AddTable(&document.TableConfig{Rows: 1, Cols: 1, Width: 7000})
+		if err != nil {
+			return nil, "err"
+		}
+		for d := 1; d < depth; d++ {
+			if t, err = t.AddNestedTable(0, 0, &document.TableConfig{Rows: 1, Cols: 1, Width: 7000 - 500*d}); err != nil {
+				return nil, "err"
+			}
+		}
+		cfg := &document.TableConfig{Rows: rows, Cols: cols, Width: 4000}
+		if rtHas(fs, "tc.data") {
+			for r := 0; r < rows; r++ {
+				row := []string{}
+				for c := 0; c < cols; c++ {
+					row = append(row, fmt.Sprintf("E%dn%dr%dc%d", x.i, depth, r, c))
+				}
+				cfg.Data = append(cfg.Data, row)
+			}
+		}
+		if rtHas(fs, "tc.colwidths") {
+			for c := 0; c < cols; c++ {
+				cfg.ColWidths = append(cfg.ColWidths, 900+400*c)
+			}
+		}
+		n, err := t.AddNestedTable(0, 0, cfg)
+		if err != nil {
+			return nil, "err"
+		}
+		if !rtHas(fs, "tc.data") {
+			if err := n.SetCellText(rows-1, cols-1, fmt.Sprintf("E%dn%d", x.i, depth)); err != nil {
+				return nil, "err"
+			}
+		}
+		return &rtTarget{T: n}, "ok"
+	}
+}
+
 func rtImage(format document.ImageFormat) rtCtor {
 	return func(x *rtCtx, fs []string) (*rtTarget, string) {
 		var data []byte
@@ -406,6 +448,7 @@ var rtCtors = map[string]rtCtor{
 	"c.tbl.1x1": rtTable(1, 1), "c.tbl.1x2": rtTable(1, 2), "c.tbl.1x3": rtTable(1, 3),
 	"c.tbl.2x1": rtTable(2, 1), "c.tbl.2x2": rtTable(2, 2), "c.tbl.2x3": rtTable(2, 3),
 	"c.tbl.3x1": rtTable(3, 1), "c.tbl.3x2": rtTable(3, 2), "c.tbl.3x3": rtTable(3, 3),
+	"c.ntbl.d1.2x2": rtNestedTable(1, 2, 2), "c.ntbl.d1.1x1": rtNestedTable(1, 1, 1), "c.ntbl.d2.2x2": rtNestedTable(2, 2, 2),
 	"c.img.png": rtImage(document.ImageFormatPNG), "c.img.jpeg": rtImage(document.ImageFormatJPEG),
 	"c.img.gif": rtImage(document.ImageFormatGIF),
 }
@@ -710,6 +753,22 @@ var rtFeats = map[string]rtFeat{
 	}),
 	"t.cellimage.sized": onT(func(x *rtCtx, t *document.Table) error {
 		_, err := x.doc.AddCellImageFromData(t, 0, 0, tinyJPEGSize(60+x.i, 4, 2), 12.5)
+		return err
+	}),
+	"t.cellimage.same": onT(func(x *rtCtx, t *document.Table) error {
+		data := tinyPNGSize(80+x.i, 5, 5)
+		if _, err := x.doc.AddCellImage(t, 0, 0, &document.CellImageConfig{Data: data, AltText: "twin a"}); err != nil {
+			return err
+		}
+		_, err := x.doc.AddCellImage(t, t.GetRowCount()-1, t.GetColumnCount()-1, &document.CellImageConfig{Data: append([]byte{}, data...), AltText: "twin b"})
+		return err
+	}),
+	"t.cellimage.file": onT(func(x *rtCtx, t *document.Table) error {
+		fn := filepath.Join(rtTemp(), fmt.Sprintf("cell E%d.png", x.i))
+		if err := os.WriteFile(fn, tinyPNGSize(70+x.i, 6, 3), 0o644); err != nil {
+			return err
+		}
+		_, err := x.doc.AddCellImageFromFile(t, 0, 0, fn, 9)
 		return err
 	}),
 	"t.nested.d1": onT(func(x *rtCtx, t *document.Table) error {
